@@ -14,10 +14,14 @@ Clauses(e) ==
            \cup (IF ~KEq(e.again, e.out) THEN {<<l, "correct_position: not idempotent">>} ELSE {})
            \cup (IF e.res > 1 THEN {<<l, "correct_position: result not congruent to the input modulo L">>} ELSE {})
            \cup (IF ~KEq(e.cuboid, e.out) THEN {<<l, "correct_position: cubic and cuboid implementations differ">>} ELSE {})
+           \cup (IF "vec" \in DOMAIN e /\ (~KEq(e.vec, e.out) \/ ~KEq(e.qvec, e.out))
+                 THEN {<<l, "correct_position: the in-place vector version (cubic or cuboid) differs from the entry version">>} ELSE {})
       [] e.op = "sep" ->
            (IF ~(KLe(e.mhalf, e.out) /\ KLe(e.out, e.half)) THEN {<<l, "separation: component exceeds half the box length">>} ELSE {})
            \cup (IF e.res > 2 THEN {<<l, "separation: not congruent to the difference modulo L">>} ELSE {})
            \cup (IF ~KEq(e.cuboid, e.out) THEN {<<l, "separation: cubic and cuboid implementations differ">>} ELSE {})
+           \cup (IF "vec" \in DOMAIN e /\ ~KEq(e.vec, e.out)
+                 THEN {<<l, "separation: the in-place vector version differs from the entry version">>} ELSE {})
 TStep == l <= Len(Log) /\ viol' = viol \cup Clauses(Log[l]) /\ l' = l + 1
 TInit == l = 1 /\ viol = {}
 TSpec == TInit /\ [][TStep]_<<l, viol>>
